@@ -311,6 +311,16 @@ Proof.
   destruct (la_step_spec a c Hi) as [H1 [H2 _]]. split; [intros [e He]; eauto|exact H2].
 Qed.
 
+(* going on after rejected calls: the object is what the accepted calls alone would have built *)
+Theorem la_run_lenient_accepted calls : forall a,
+  la_run ceqb a (accepted_calls ceqb a calls) = Ok (fst (la_run_lenient ceqb a calls)).
+Proof.
+  induction calls as [|c r IH]; intros a; [reflexivity|].
+  cbn [accepted_calls la_run_lenient]. destruct (la_step ceqb a c) as [a'|e] eqn:E.
+  - cbn [la_run fst]. rewrite E. apply IH.
+  - cbn [fst]. apply IH.
+Qed.
+
 Theorem la_rejection_is_config_error (a : larch) c e : la_step ceqb a c = Er e -> e = EConfig.
 Proof.
   destruct c as [l|m|ms|r|]; cbn [la_step]; unfold la_containing, la_set_pending;
